@@ -109,4 +109,35 @@ def make_app(problem):
             self.scheme.configure_solver(kernel=QuinticSpline(dim=2),
                                          dt=1e-4, tf=6 * 1e-4, pfreq=1000)
 
-    return {'drop': Drop, 'tank': Tank, 'periodic': Periodic}[problem]
+    class Collide(Application):
+        """two fluid blocks in separate arrays, just out of kernel range at
+        t=0, approaching: the (f1, f2) pair has no neighbours at first and
+        interacts from the second step on"""
+        def create_particles(self):
+            h0 = hdx * dx
+            gap = 2.0 * h0 + 1e-4          # CubicSpline radius_scale = 2
+            x, y = np.mgrid[0:0.2 + 1e-9:dx, 0:0.3 + 1e-9:dx]
+            x, y = x.ravel(), y.ravel()
+            arrs = []
+            for name, xo, uo in (('f1', -0.2 - gap / 2, 1.0),
+                                 ('f2', gap / 2, -1.0)):
+                pa = get_particle_array(name=name, x=x + xo, y=y, h=h0,
+                                        m=rho0 * dx * dx, rho=rho0,
+                                        u=uo * np.ones_like(x))
+                arrs.append(pa)
+            self.scheme.setup_properties(arrs)
+            start = 0
+            for pa in arrs:
+                start = _ids(pa, start)
+            return arrs
+
+        def create_scheme(self):
+            return WCSPHScheme(['f1', 'f2'], [], dim=2, rho0=rho0, c0=c0,
+                               h0=hdx * dx, hdx=hdx, alpha=0.1)
+
+        def configure_scheme(self):
+            self.scheme.configure_solver(kernel=CubicSpline(dim=2),
+                                         dt=2e-4, tf=6 * 2e-4, pfreq=1000)
+
+    return {'drop': Drop, 'tank': Tank, 'periodic': Periodic,
+            'collide': Collide}[problem]
